@@ -118,6 +118,27 @@ MUTANTS = [
  ('C04-10', 'C04', K + 'Surface/ConversionSurfaceMCNPToT4.py',
   "        center = transform_mat.T.dot(center)",
   "        center = transform_mat.dot(center)"),
+ # ---- C05
+ ('C05-1', 'C05', K + 'Volume/CellConversion.py',
+  "        if cache:\n            cache_key = (cell_key, tuple(transform))\n            new_key = self.cell_transform_cache.get(cache_key, None)",
+  "        if cache:\n            cache_key = (cell_key,)\n            new_key = self.cell_transform_cache.get(cache_key, None)"),
+ ('C05-2', 'C05', K + 'Volume/CellConversion.py',
+  "            if mcnp_key_filltr:\n                new_elt_key = self.cell_transform(new_elt_key, mcnp_key_filltr,\n                                                  cache=cache)\n            elif cell.trcl:",
+  "            if mcnp_key_filltr:\n                new_elt_key = self.cell_transform(new_elt_key, mcnp_key_filltr,\n                                                  cache=cache)\n            if cell.trcl:"),
+ ('C05-3', 'C05', K + 'Volume/CellConversion.py',
+  "            new_cell.idorigin.append(\n                (element_cell.idorigin[0][0]\n                 if element_cell.idorigin else element,",
+  "            new_cell.idorigin.append(\n                (element,"),
+ ('C05-4', 'C05', K + 'Volume/CellConversion.py',
+  "        if isCellRef(p_tree):\n            new_cell_key = self.cell_transform(p_tree.cell, p_transf)\n            return CellRef(new_cell_key)",
+  "        if isCellRef(p_tree):\n            return p_tree"),
+ ('C05-5', 'C05', K + 'FileHandlers/Parser/ParseMCNPCell.py',
+  "        elif '*' in elt:\n            fill_params = [float(x) for x in fill_params]\n            fill_params[3:] = list(map(to_cos, fill_params[3:12]))",
+  "        elif '*' in elt:\n            fill_params = [float(x) for x in fill_params]\n            fill_params[3:] = list(fill_params[3:12])"),
+ ('C05-6', 'C05', K + 'Volume/CellConversion.py',
+  "                else:\n                    new_cell.geometry = ('*', CellRef(key),\n                                         CellRef(new_elt_key))",
+  "                else:\n                    new_cell.geometry = ('*', CellRef(new_elt_key),\n                                         CellRef(new_elt_key))"),
+ # (C05-7, replacing the container's idorigin lookup by `key`, is an
+ #  equivalent mutant: containers never carry an idorigin)
 ]
 
 
